@@ -262,41 +262,51 @@ EXTRA_TEXT = {
            "; node functions of main-thread and async-thread nodes see the caller's ContextVar; calls made inside node functions of another DAG, by worker threads, in a second event loop, on deepcopy / dill copies",
     "C02": "; a dependency that RAISED has not finished either (fault jobs); executor re-run histories"
            "; identity-carrying results: a consumer handed a COPY is a violation; pass-through results (two results are one object); twin functions of one qualified name; composed DAGs (inputs in any order); selections as one-shot iterators"
-           "; re-wired twins built after the first DAG was dropped (id()-keyed caches); calls by worker threads and from node functions",
+           "; re-wired twins built after the first DAG was dropped (id()-keyed caches); calls by worker threads and from node functions"
+           "; medium-scale shapes (40..170 call sites), call sites with 33..70 dependencies, key paths of up to six steps, chains deeper than the recursion limit",
     "C03": "; the selection workload (ids of reused functions, tags incl. substrings / id-spelled ones, references, tuples), the debug-node "
            "workload (flag off) and the cache-restart workload also run here with their 'entered although it must not' clauses"
            "; selections handed over as one-shot iterators / generators / tuples"
-           "; the build-overlap workload (a DAG described while other threads describe / call DAGs holds exactly its own call sites); executors created before a reload of is_sequential",
+           "; the build-overlap workload (a DAG described while other threads describe / call DAGs holds exactly its own call sites); executors created before a reload of is_sequential"
+           "; medium-scale shapes; selections deep inside chains of 1100..1500 nodes",
     "C04": "; nodes are declared in every documented form (decorator / xn(f, **options) call form, options left to the process defaults "
            "taken from the environment); 12% of the cases schedule a DAG obtained through compose(..., max_concurrency=k)"
            "; configuration profiles re-applied as the same dict objects (A, B, A); two decorated functions of one qualified name with own options; functools.partial node functions"
-           "; calls made by a thread that is not the main thread and from node functions of another DAG; deep / shallow copies around reloads",
+           "; calls made by a thread that is not the main thread and from node functions of another DAG; deep / shallow copies around reloads"
+           "; medium-scale shapes; one level of hundreds of independent nodes",
     "C05": "; decorator-level tags and configuration BY TAG (a tag wins over an equally spelled node id), through dict / yaml / json"
            "; is_sequential spelled 1 / 0 in configurations; profiles A, B, A"
-           "; executors created before a reload that only changes is_sequential; deep copies configured differently",
+           "; executors created before a reload that only changes is_sequential; deep copies configured differently"
+           "; a sequential function above a level of hundreds of nodes / beside a chain of hundreds of nodes (node bodies take a moment)",
     "C06": "; plus the tie-free max_concurrency=1 order workload of C07 (debug nodes re-attached, composed, re-configured, retried, "
            "boundary priority vectors); exhaustive completion orders also through executor selections"
-           "; tags that are substrings of each other",
+           "; tags that are substrings of each other"
+           "; medium-scale shapes; priorities 2**60 + 2**i",
     "C07": "; signed priorities, vectors summing to 0 / without a positive entry, partial re-configurations followed by a second one, "
            "repeated calls with debug nodes off"
            "; priority profiles switched A, B, A with the same dict object"
-           "; the same describing function decorated a second time keeps the declared priorities",
+           "; the same describing function decorated a second time keeps the declared priorities"
+           "; priorities 2**60 + 2**i",
     "C08": "; executor selections followed by whole calls on one object"
-           "; an await next to a busy one-worker default executor of the application hands nothing to that executor",
+           "; an await next to a busy one-worker default executor of the application hands nothing to that executor"
+           "; max_concurrency up to 14 on levels wider than that",
     "C09": "; setup() / executor.setup() histories: a setup operation that returns normally has run its selection; DAGs of 150..900 nodes "
            "(chain, fan, grid, tree) within the same step bound"
            "; node failures of varying exception classes incl. BaseException / asyncio.CancelledError / StopIteration"
-           "; several event loops, busy default executor, an await after a cancelled await whose straggler is still in its thread",
+           "; several event loops, busy default executor, an await after a cancelled await whose straggler is still in its thread"
+           "; one level of more than 256 ready nodes",
     "C10": "; plus histories on DAGs whose flags are results of setup nodes (partial setup, executors, calls, copies)"
            "; many flags that are short-lived temporaries (fresh floats from indexing a lazy sequence)"
-           "; constant flags whose truthiness depends on the thread that evaluates them",
+           "; constant flags whose truthiness depends on the thread that evaluates them"
+           "; almost-zero floats as flags; one wide level of independent flagged nodes with max_concurrency up to 16; compose workload",
     "C11": "; executor(T).setup() in both flavours, tag aliases, 13 x 2 illegal setup-dependency variants, flags fed by setup results, "
            "an executor started from ANOTHER instance's cache file"
            "; setup results whose identity matters (a copy handed to a consumer is a violation); setup nodes fed by an INDEXED DAG argument",
     "C12": "; functions reused at several sites with prefix-related names (ids f<<k>> as aliases), tuples of aliases, consecutive selections "
            "on one object with setup results, RUN_DEBUG_NODES on (no debug node in the shape)"
            "; selections naming the decorated function object itself; one-shot iterators"
-           "; what an inner DAG had set up before the outer DAG was described is already computed for the outer one",
+           "; what an inner DAG had set up before the outer DAG was described is already computed for the outer one"
+           "; wide DAGs with a tag shared by more than 16 nodes and selections of up to 25 ids; selections deep inside chains of 1100..1500 nodes",
     "C13": "; cache_deps_of executors are an execution mode too; a rejected legal DAG is a verdict; priority-only reloads naming debug nodes; "
            "the switch given through the environment of fresh processes"
            "; prefix-named functions (debug id a prefix of a production id and vice versa); uncopyable constant objects as inputs"
@@ -304,11 +314,13 @@ EXTRA_TEXT = {
     "C14": "; identification clause per node kind (job c14_loc): one statement per line, every node in turn fails (plain / operator / "
            "reflected operator / unary / and_ or_ not_ / method / nested) and the exception must name that node, its exact file:line "
            "(also for files whose path merely starts like the tawazi package) and carry the injected exception (one, several, no args) as cause"
-           "; the class of the failure varies (StopIteration / KeyError / TimeoutError / BaseException / CancelledError), a third raised `from` a lower-level exception (the NODE's exception must be the cause); fault-free repeated calls with setup nodes (some return None)",
+           "; the class of the failure varies (StopIteration / KeyError / TimeoutError / BaseException / CancelledError), a third raised `from` a lower-level exception (the NODE's exception must be the cause); fault-free repeated calls with setup nodes (some return None)"
+           "; failures inside medium-scale shapes",
     "C15": "; dag.max_concurrency must stay what the user configured last; setup-history workload (a None left for an unselected setup node is "
            "leaked state); k-th call schedules like the first (tie-free order workload)"
            "; IF a DAG with an argument-fed setup node builds, the second call must not mention the first call's argument; a restart reads the cache file as it is now (same path re-written)"
-           "; deepcopy / dill copies in call histories, an await after a cancelled await, DAG objects used as node functions keep their own state, busy default executor",
+           "; deepcopy / dill copies in call histories, an await after a cancelled await, DAG objects used as node functions keep their own state, busy default executor"
+           "; histories of 30..140 operations; inner DAG objects called directly after they were nested",
     "C16": "; the shared DAG of both the concurrent-call and the build-overlap workload may be an AsyncDAG; warnings are recorded by the main thread"
            "; re-entrancy: node functions of an outer DAG that call (or build and call) another DAG, DAG objects as node functions (re-configured, nested), calls by non-main threads",
     "C17": "; capacity phase: more concurrent awaits than the loop's default executor has workers, all inside their node together; executor steps "
@@ -321,7 +333,9 @@ EXTRA_TEXT = {
            "; a failing caching run on an existing file leaves it usable; caching run and restart awaited in one event loop",
     "C19": "; tags spelled like another node's id; constant OBJECTS (identity-sensitive, uncopyable) taken from the original"
            "; parameter names in no alphabetical order"
-           "; compose() inside a describing function; aliases given as decorated functions of a second build",
+           "; compose() inside a describing function; aliases given as decorated functions of a second build"
+           "; pipelines of 90..130 call sites; a result passed twice to one call",
     "C20": "; inner DAGs sharing one __name__, inner DAGs obtained through compose(), identity-sensitive constants as nested-DAG arguments"
-           "; DAGs with DAG-object nodes nested in an outer DAG; nested calls while other threads build DAGs",
+           "; DAGs with DAG-object nodes nested in an outer DAG; nested calls while other threads build DAGs"
+           "; inner DAGs with prefix-related names; an inner DAG that is a chain of more than a thousand nodes; inner DAG objects called directly after they were nested",
 }
